@@ -406,6 +406,60 @@ def forest_correspondence(ctx, srv, exprs, meta, tag, files):
     meta.append((tag, "ast.encloses", "%d objects, %d pairs" % (n, len(cases))))
 
 
+INCLUDE_ORDER_FILES = {
+    "p_inc.f90": "integer :: xp\ninterface\n  subroutine sp()\n    include 'q_inc.f90'\n  end subroutine sp\nend interface\n",
+    "q_inc.f90": "integer :: xq\ninterface\n  subroutine sq()\n    include 'p_inc.f90'\n  end subroutine sq\nend interface\n",
+    "main.f90": "module m\n  include 'q_inc.f90'\n  integer :: xm\ncontains\n  subroutine s()\n    xm = xq\n  end subroutine s\nend module m\n",
+}
+
+
+def check_include_orders(ctx):
+    """two files that INCLUDE each other from inside interface bodies and a third that includes one of them, opened one by one on a
+    server started on the empty directory, in all six orders: every didOpen publishes diagnostics, nothing is answered with an error"""
+    import itertools
+    for order in itertools.permutations(sorted(INCLUDE_ORDER_FILES)):
+        root = tempfile.mkdtemp(prefix="verif_c20_o_")
+        bad = []
+        old = signal.signal(signal.SIGALRM, _alarm)
+        try:
+            ARMED[0] = True
+            signal.setitimer(signal.ITIMER_REAL, 30, 0.25)
+            srv, conn = impl.make_server(root, extra=["--nthreads", "1"])
+            conn.take()
+            for name, text in INCLUDE_ORDER_FILES.items():
+                with open(os.path.join(root, name), "w") as f:
+                    f.write(text)
+            for name in order:
+                path = os.path.join(root, name)
+                t0 = time.time()
+                impl.did_open(srv, path)
+                dt = time.time() - t0
+                out = conn.take()
+                if dt > 10.0 or not any(o[0] == "n" and o[1] == "textDocument/publishDiagnostics" for o in out) or \
+                        any(o[0] == "e" or (o[0] == "n" and o[1] == "window/showMessage" and o[2].get("type") == 1) for o in out):
+                    bad.append(("didOpen", name, "no diagnostics published / error / %.1f s" % dt))
+            for name in order:
+                path = os.path.join(root, name)
+                for (li, ch) in identifiers(INCLUDE_ORDER_FILES[name]):
+                    for m in ("textDocument/hover", "textDocument/definition"):
+                        r, _ = impl.request(srv, conn, m, impl.pos_params(path, li, ch))
+                        if r is None or r[0] == "e":
+                            bad.append((m, name, (li, ch)))
+        except Timeout:
+            bad.append(("timeout", None, "more than 30 s"))
+        except RecursionError:
+            bad.append(("RecursionError", None, "outside the request handlers"))
+        finally:
+            ARMED[0] = False
+            signal.setitimer(signal.ITIMER_REAL, 0)
+            signal.signal(signal.SIGALRM, old)
+            shutil.rmtree(root, ignore_errors=True)
+        ctx.count(("include-order", order), True)
+        if bad:
+            ctx.report("C20:include-open-order", "files of an INCLUDE cycle opened in the order %s: %s" % (list(order), bad[0]),
+                       {"kind": "counterexample", "input": {"files": INCLUDE_ORDER_FILES, "open_order": list(order)}, "implementation": [list(map(str, b)) for b in bad[:6]]})
+
+
 def search_failing(ctx):
     return None
 
@@ -433,6 +487,7 @@ def run(ctx):
         for n in lengths:
             for split in ([False] if ctx.quick() or kind not in ("use", "submodule") else [False, True]):
                 run_workspace(ctx, kind, n, split, exprs, meta)
+    check_include_orders(ctx)
     bad = coq.bools(exprs, shard=200)
     ctx.cov["traces_validated_against_impl"] += len(exprs)
     for b in bad[:5]:
